@@ -821,11 +821,37 @@ def m_range(i, args, kw, st, node):
     return UNK
 
 
+def as_iterable(i, v, st, node):
+    """An object of the repository used where a sequence is expected: the list its __iter__ returns (iterators over
+    a list are the list, read-only), or its items through __len__ / __getitem__.  Anything else comes back as is."""
+    if isinstance(v, AObj) and v.cnode is not None and v.ident not in st.havoc:
+        r = i.repo.find_method(v.mod, v.cnode, "__iter__")
+        if r is not None:
+            out = i.call_func(AFunc(r[0], r[1], self_obj=v, cls=v.cnode), [], {}, st, node)
+            if isinstance(out, (list, tuple)):
+                return list(out)
+            return v
+        ln, gi = i.repo.find_method(v.mod, v.cnode, "__len__"), i.repo.find_method(v.mod, v.cnode, "__getitem__")
+        if ln is not None and gi is not None:
+            n = i.call_func(AFunc(ln[0], ln[1], self_obj=v, cls=v.cnode), [], {}, st, node)
+            if isinstance(n, int) and 0 <= n <= 256:
+                return [i.call_func(AFunc(gi[0], gi[1], self_obj=v, cls=v.cnode), [k], {}, st, node) for k in range(n)]
+    return v
+
+
+def m_iter(i, args, kw, st, node):
+    if len(args) == 1:
+        v = as_iterable(i, args[0], st, node)
+        if isinstance(v, (list, tuple, bytes, str, range, dict, frozenset, set)):
+            return v
+    return UNK
+
+
 def m_seq(tp):
     def f(i, args, kw, st, node):
         if not args:
             return tp()
-        v = args[0]
+        v = as_iterable(i, args[0], st, node)
         if isinstance(v, (tuple, list, range, bytes, str, frozenset, set, dict)):
             try:
                 return tp(v)
@@ -852,6 +878,7 @@ def m_enumerate(i, args, kw, st, node):
 
 
 def m_zip(i, args, kw, st, node):
+    args = [as_iterable(i, a, st, node) for a in args]
     if args and all(isinstance(a, (tuple, list, bytes, str, range)) for a in args):
         return [tuple(x) for x in zip(*args)]
     return UNK
@@ -1165,7 +1192,7 @@ EXT_MODELS = {
     "int": m_int, "bool": m_bool, "bytes": m_bytes("bytes"),
     "bytearray": m_bytes("bytearray"), "str": m_str,
     "isinstance": m_isinstance, "range": m_range, "tuple": m_seq(tuple),
-    "list": m_seq(list), "dict": m_dict, "map": m_map, "filter": m_filter,
+    "list": m_seq(list), "dict": m_dict, "map": m_map, "filter": m_filter, "iter": m_iter,
     "set": m_seq(frozenset), "frozenset": m_seq(frozenset),
     "sorted": m_sorted, "reversed": lambda i, a, k, s, n: list(reversed(a[0])) if a and isinstance(a[0], (list, tuple, bytes, str, range)) else UNK,
     "enumerate": m_enumerate, "zip": m_zip, "sum": m_sum,
